@@ -203,7 +203,7 @@ def r4_measure(ctx):
     rule = 'C07.R4-termination-measure'
     facts = ctx.facts
     opaque = {n for n in facts.fns if n.startswith('chess::move_generator') or n.startswith(AB + 'prioritize')
-              or n.startswith(CHESSMOVE)} | {AB + 'check_cache', AB + 'set_cache', 'chess::evaluate::score', BOARD + '::toggle_turn'}
+              or n.startswith(CHESSMOVE)} | set(x for x in search_cache_fns(facts) if x) | {'chess::evaluate::score', BOARD + '::toggle_turn'}
     eng = Engine(facts, opaque=opaque, readonly={BOARD + '::turn', BOARD + '::current_position_hash'}, max_paths=20000)
     outs = eng.run(MINIMAX)
     ctx.touch(MINIMAX)
